@@ -9,7 +9,7 @@ from ..core import (AnalysisError, ClassInfo, Repo, call_attr, call_name, calls_
                     qualname, short)
 from ..driver import Knockout, sub_nth, sub_once
 from ..report import Ctx
-from ..rules import hooks
+from ..rules import hooks, shapes
 
 METRICS = "graphiq/metrics.py"
 DAG = "graphiq/circuit/circuit_dag.py"
@@ -366,12 +366,14 @@ def run(ctx: Ctx) -> None:
     rule_labels(ctx)
     rule_guarded_lookup(ctx)
     rule_metric_copies(ctx)
+    shapes.rule_metric_source(ctx)
     ctx.floor("flow.definite-attr", 30)
     ctx.floor("label.exists", 4)
     ctx.floor("effect.inplace-on-input", 8)
 
 
 KNOCKOUTS = [
+    Knockout("metric-source-photons", METRICS, sub_once("        n = circuit.n_emitters\n", "        n = circuit.n_photons\n"), "metric.source", "CircuitEmitterCount"),
     Knockout("G8-default-attr", METRICS,
              sub_once("        if m_penalty is None:\n            self.m_penalty = (", "        if m_penalty is None:\n            self.measure_penalty = ("),
              "flow.definite-attr", "CircuitMeasureCount"),
